@@ -5,13 +5,16 @@ REPO="${VERIF_REPO:-/repo}"
 HERE="$(cd "$(dirname "$0")" && pwd)"
 NAME="$1"; shift
 WORK="$(mktemp -d /tmp/vx_replay_XXXXXX)"
+# build cache (rebuilt from $REPO's current sources by cargo on every run; safe to delete)
+CACHE="$HERE/../.cache/replay_target_$NAME"
+mkdir -p "$CACHE"
 trap 'rm -rf "$WORK"' EXIT
 cp -r "$HERE/$NAME/src" "$WORK/src"
 sed "s#@REPO@#$REPO#g" "$HERE/$NAME/Cargo.toml.in" > "$WORK/Cargo.toml"
 cp "$REPO/Cargo.lock" "$WORK/Cargo.lock"
 cd "$WORK"
-CARGO_TARGET_DIR="${VX_REPLAY_TARGET:-$WORK/target}" CARGO_NET_OFFLINE=true cargo build --offline -q 2>"$WORK/build.log" || { cat "$WORK/build.log" | tail -30; exit 2; }
-BIN="$(ls ${VX_REPLAY_TARGET:-$WORK/target}/debug/vx-replay-* | grep -v '\.d$' | head -1)"
+CARGO_TARGET_DIR="${VX_REPLAY_TARGET:-$CACHE}" CARGO_NET_OFFLINE=true cargo build --offline -q 2>"$WORK/build.log" || { cat "$WORK/build.log" | tail -30; exit 2; }
+BIN="$(ls ${VX_REPLAY_TARGET:-$CACHE}/debug/vx-replay-$NAME* | grep -v '\.d$' | head -1)"
 rc=0
 for s in "$@"; do "$BIN" "$s" || rc=1; done
 exit $rc
